@@ -75,6 +75,39 @@ func runC19(c *Ctx) {
 		}
 	}
 	r.Check("C19.clean-effects", "clean/has exactly one removal site", m.Pos(clean.Pos()), nRemove == 1, fmt.Sprintf("%d os.Remove sites reachable", nRemove))
+	// clean ends only after the sweep: no return before (or instead of) the sweep of the directories —
+	// one directory missing says nothing about the other
+	nSweep := 0
+	for _, cs := range callsIn(clean) {
+		callee := cs.Common().StaticCallee()
+		isSweep := calleeName(cs.Common()) == "os.ReadDir"
+		if !isSweep && callee != nil && callee.Blocks != nil && strings.HasPrefix(pkgPathOfFn(callee), modPath) {
+			for g := range m.reach([]*ssa.Function{callee}, nil) {
+				if g.Blocks != nil && len(callsIn(g, "os.ReadDir")) > 0 {
+					isSweep = true
+				}
+			}
+		}
+		if !isSweep {
+			continue
+		}
+		nSweep++
+		anchor := cs.Block()
+		for _, l := range naturalLoops(clean) {
+			if l.blocks[cs.Block()] && l.header.Dominates(anchor) {
+				anchor = l.header
+			}
+		}
+		early := ""
+		for _, b := range clean.Blocks {
+			last := b.Instrs[len(b.Instrs)-1]
+			if _, isRet := last.(*ssa.Return); (isRet || isReturnOrExit(last)) && b.Comment != "recover" && !anchor.Dominates(b) {
+				early = m.Pos(last.Pos())
+			}
+		}
+		r.Check("C19.clean-complete", "clean/does not end before the sweep", m.Pos(cs.Pos()), early == "", "clean returns at "+early+" without having swept the directories")
+	}
+	r.Check("C19.clean-complete", "clean/sweep sites", m.Pos(clean.Pos()), nSweep >= 1, fmt.Sprintf("%d", nSweep))
 
 	// ---- suffix agreement -----------------------------------------------------
 	fileVersion := m.ConstVal("internal/counter", "FileVersion")
